@@ -151,7 +151,7 @@ pub fn run(ctx: &Ctx) -> Report {
     let ws = worlds(thorough);
     let share = ctx.budget_s * 0.75 / ws.len() as f64;
     let counters = Counters { vault_checks: AtomicU64::new(0), drains: AtomicU64::new(0), drain_instructions: AtomicU64::new(0) };
-    let max_depth = ctx.pick(3, 6);
+    let max_depth = ctx.depth(3, 6);
     for b in &ws {
         let m = model(b, &counters, ctx.pick(4, 16));
         let out = poolexplore::run_world(ctx, &mut r, b, &m, max_depth, share);
